@@ -65,6 +65,7 @@ fn main() {
         checks::bench();
         return;
     }
+    std::env::set_var("VERIF_TIER", &tier);
     let code = checks::run(&id, &tier, seed);
     std::process::exit(code);
 }
